@@ -256,7 +256,9 @@ func (v *verifSanitizer) obligation(o verifObligation, all bool) {
 				}
 			case "html_attr":
 				for _, wrap := range []string{`<img src="https://e.example/i" alt="%s">`, `<img alt="%s">`, `<video src="%s"></video>`, `<iframe src="https://e.example/f" title="%s"></iframe>`,
-					`<audio alt="%s" src="https://e.example/a"></audio>`, `<a href="%s">link</a>`, `<iframe title="%s"></iframe>`} {
+					`<audio alt="%s" src="https://e.example/a"></audio>`, `<a href="%s">link</a>`, `<iframe title="%s"></iframe>`,
+					/* attributes of elements the renderer does not know (shown by their names) */
+					`<table summary="%s"><tr><td>cell</td></tr></table>`, `<section data-note="%s">text</section>`, `<input value="%s">`, `<ol title="%s"><li>item</li></ol>`, `<x-widget label="%s">w</x-widget>`} {
 					doc := base()
 					doc["content"] = fmt.Sprintf(wrap, payload)
 					if post, err := NewPostFromObject(doc, nil); err == nil {
